@@ -415,7 +415,14 @@ Definition ini_line_ok (line : string) : bool :=
   end.
 
 (* ------------------------------------------------------------------ machine facts (inputs) *)
-Record machine := { m_pus : N; m_cores : N; m_maskcount : N; m_maskcores : N }.
+(* m_coremasks: the PU mask of every core (init_core_affinity_mask_from_core), needed by
+   get_number_of_default_cores for an EXPLICIT process mask: the keyword `cores` counts the cores
+   that have at least one PU in the mask *)
+Record machine := { m_pus : N; m_cores : N; m_maskcount : N; m_maskcores : N; m_coremasks : list N }.
+
+(* get_number_of_default_cores(use_process_mask = true) for the mask v *)
+Definition cores_in (v : N) (coremasks : list N) : N :=
+  N.of_nat (length (filter (fun cm => negb (N.land cm v =? 0)%N) coremasks)).
 
 (* ------------------------------------------------------------------ handle_* functions *)
 Section Resolve.
@@ -453,7 +460,7 @@ Section Resolve.
     (* handle_process_mask *)
     let mask := resolve "pika:process-mask" "pika.process_mask" in
     match (match mask with EmptyString => Some (m_maskcount m, m_maskcores m)
-                    | _ => match parse_mask mask with Some v => Some (popcount v, popcount v) | None => None end end) with
+                    | _ => match parse_mask mask with Some v => Some (popcount v, cores_in v (m_coremasks m)) | None => None end end) with
     | None => Rejected RBadMask
     | Some (maskcount, maskcores) =>
     let sched := resolve "pika:scheduler" "pika.scheduler" in
